@@ -261,6 +261,19 @@ Theorem C20_registry_regname_iff :
 Proof. exact registry_regname_iff. Qed.
 Print Assumptions C20_registry_regname_iff.
 
+(* ... and so are the bracketed IP literals: '[' host ']' [':' digits] with host bytes inside the
+   brackets, no further bracket, and an inside that netip.ParseAddr accepts as a non-IPv4 address.
+   Together with C20_registry_regname_iff this is the complete grammar of accepted registries. *)
+Theorem C20_registry_bracket_iff :
+  forall (ip6_ok : str -> bool) reg,
+    contains 91 reg = true ->
+    (go_valid_registry ip6_ok reg = true <->
+     exists h port,
+       reg = 91 :: h ++ 93 :: port /\ contains 91 h = false /\ contains 91 port = false /\ contains 93 port = false /\
+       forallb hostcb h = true /\ ip6_ok h = true /\ valid_optional_port port = true).
+Proof. exact registry_bracket_iff. Qed.
+Print Assumptions C20_registry_bracket_iff.
+
 (* the URL clauses with the modelled validator: no hypothesis about the registry left *)
 Theorem C20_url_exact_go :
   forall (avail ip6_ok : str -> bool) plain s r,
